@@ -48,6 +48,22 @@ SITES = {
 }
 
 # flag sites that exist in the scanned files but are out of scope, with reason
+# solver functions that hand back a symmetrised matrix with a literal flag
+SITES.update({
+    "prop_ss":   ("qutip/solver/propagator.py", "propagator_steadystate", ("call", 0)),
+    "ss_direct": ("qutip/solver/steadystate.py", "_steadystate_direct", ("call", 0)),
+    "ss_power":  ("qutip/solver/steadystate.py", "_steadystate_power", ("setter", "rho_ss")),
+})
+
+# files whose flag literals belong to another property's obligations
+DELEGATED_FILES = {
+    "qutip/core/operators.py": "constructor literals: C20 (exact predicates for every constructor family)",
+    "qutip/core/states.py": "constructor literals: C20",
+    "qutip/core/gates.py": "gate tables: C20 translator tx_c20_gates + exact predicates",
+    "qutip/random_objects.py": "class membership by exact predicates: C20",
+    "qutip/core/energy_restricted.py": "constructor literals: C20",
+}
+
 WAIVED = {
     ("qutip/core/qobj.py", "Qobj.__init__"): "stores the keyword as given",
     ("qutip/core/qobj.py", "Qobj._initialize_data"): "copies flags of a Qobj argument when none given (identity)",
@@ -104,11 +120,13 @@ DATA_OPS = {
     "data": None,   # resolved per site below
     "_data.identity(self.shape[0], scale, dtype=type(self.data))": "DScaledId",
     "_data.kron_transpose(B.data, A.data)": "DKronT",
+    "_data.add(rho_data, _data.adjoint(rho_data))": "DSymm",
 }
 SITE_DATA_OVERRIDE = {"permute": "DPermute", "expand_permute": "DPermute", "transform": "DTransform",
                       "spre": "DKronIdL", "spost": "DKronTIdR",
                       "tensor_step": "DKron", "unit_inplace": "DMul",
-                      "solver_state": "DEvolved"}
+                      "solver_state": "DEvolved", "ss_direct": "DSymmHalf",
+                      "ss_power": "DSymmNormTr"}
 # what `data` must have been assigned from, for the overridden sites
 SITE_DATA_SOURCE = {
     "permute": "_data.permute.dimensions(self.data, structure, order)",
@@ -117,6 +135,7 @@ SITE_DATA_SOURCE = {
     "spost": "_data.kron_transpose(A.data, _data.identity_like(A.data))",
     "tensor_step": "_data.kron(out_data, arg.data)",
     "unit_inplace": "_data.mul(self.data, 1 / norm_)",
+    "ss_direct": "_data.add(rho_ss, rho_ss.adjoint()) * 0.5",
 }
 
 
@@ -203,7 +222,8 @@ def has_flag_site(fn):
                 return True
         if isinstance(n, ast.Assign):
             for t in n.targets:
-                if isinstance(t, ast.Attribute) and t.attr in ("_isherm", "_isunitary"):
+                if isinstance(t, ast.Attribute) and t.attr in ("_isherm", "_isunitary",
+                                                              "isherm", "isunitary"):
                     return True
         if isinstance(n, ast.Dict):
             for k in n.keys:
@@ -335,6 +355,25 @@ def translate_site(name, spec, trees):
                 ast.unparse(kw(call, "isunitary")) != "isunitary":
             raise Unsupported("tensor: final Qobj(...) does not forward the locals")
         res["data"] = SITE_DATA_OVERRIDE[name]
+    elif sel[0] == "setter":
+        # <var> = <var> + <var>.dag(); <var> = <var> / <var>.tr(); <var>.isherm = True
+        v = sel[1]
+        stmts = [n for n in fn.body if isinstance(n, ast.Assign)]
+        srcs = [ast.unparse(n) for n in stmts]
+        want = ["%s = %s + %s.dag()" % (v, v, v), "%s = %s / %s.tr()" % (v, v, v)]
+        flag = [n for n in stmts if isinstance(n.targets[0], ast.Attribute)
+                and n.targets[0].attr in ("isherm", "_isherm", "isunitary", "_isunitary")]
+        if len(flag) != 1 or ast.unparse(flag[0].targets[0]) != "%s.isherm" % v:
+            raise Unsupported("%s: expected exactly one flag statement `%s.isherm = ...`" % (qual, v))
+        k = stmts.index(flag[0])
+        if k < 2 or srcs[k - 2:k] != want:
+            raise Unsupported("%s: statements before the flag changed: %r" % (qual, srcs[max(0, k - 2):k]))
+        # nothing may touch the variable between the flag statement and the return
+        tail = fn.body[fn.body.index(flag[0]) + 1:]
+        if [ast.unparse(t) for t in tail] != ["return %s" % v]:
+            raise Unsupported("%s: statements after the flag changed" % qual)
+        res["herm"] = tr(flag[0].value)
+        res["data"] = SITE_DATA_OVERRIDE[name]
     elif sel[0] == "dict":
         val = None
         for n in own_nodes(fn):
@@ -411,15 +450,52 @@ def generate(repo=None, out=None):
     repo = repo or vlib.REPO
     out = out or os.path.join(vlib.COQ, "Gen", "C03_flags.v")
     files = sorted({s[0] for s in SITES.values()} | {w[0] for w in WAIVED})
+    # every Python file of the package (tests excluded) is scanned for flag sites
+    for d, _, fs in os.walk(os.path.join(repo, "qutip")):
+        if "/tests" in d + "/":
+            continue
+        for fname in fs:
+            if fname.endswith(".py"):
+                rel = os.path.relpath(os.path.join(d, fname), repo)
+                if rel not in files and rel not in DELEGATED_FILES:
+                    files.append(rel)
     trees = {}
     for f in files:
-        trees[f] = functions(ast.parse(open(os.path.join(repo, f)).read()))
+        mod = ast.parse(open(os.path.join(repo, f)).read())
+        trees[f] = functions(mod)
+        top = ast.FunctionDef(name="<module>", body=[n for n in mod.body], decorator_list=[],
+                              args=None, lineno=0)
+        if has_flag_site(top):
+            raise Unsupported("flag site at module level of %s" % f)
     # completeness: every function with a flag site is listed or waived
     listed = {(s[0], s[1]) for s in SITES.values()} | set(WAIVED)
     for f, fns in trees.items():
         for q, fn in fns.items():
             if has_flag_site(fn) and (f, q) not in listed:
                 raise Unsupported("new flag site not covered by a theorem: %s:%s" % (f, q))
+    # Cython sources: textual scan, every assignment / keyword named like a flag
+    # must be one of the known statements
+    import re
+    PYX_KNOWN = {
+        "qutip/core/cy/qobjevo.pyx": [
+            "cdef bint isherm = <bint> obj._isherm and coeff.imag == 0",
+            "return Qobj(out, dims=self._dims, copy=False, isherm=isherm or None)"],
+        "qutip/core/data/norm.pyx": [          # hint to the eigen-solver about op.dag() @ op
+            "eigs = eigs_csr(op, isherm=True, vecs=False, tol=tol, maxiter=maxiter)"],
+        "qutip/core/data/properties.pyx": ["isherm = _Dispatcher("],
+    }
+    pat = re.compile(r"(\b_?isherm|\b_?isunitary)\s*=(?!=)")
+    for d, _, fs in os.walk(os.path.join(repo, "qutip")):
+        if "/tests" in d + "/":
+            continue
+        for fname in fs:
+            if not fname.endswith((".pyx", ".pxd", ".pxi")):
+                continue
+            rel = os.path.relpath(os.path.join(d, fname), repo)
+            for line in open(os.path.join(d, fname)):
+                code = line.split("#")[0].strip()
+                if pat.search(code) and code not in PYX_KNOWN.get(rel, []):
+                    raise Unsupported("new flag site in a Cython source: %s: %s" % (rel, code))
     # permute's second construction (superoperator branch) passes no flags
     pc = qobj_calls(trees["qutip/core/qobj.py"]["Qobj.permute"])
     if len(pc) != 2 or any(kw(pc[1], k) is not None for k in ("isherm", "isunitary")):
